@@ -46,7 +46,7 @@ package lru
 //@   requires p.ok()
 //@   modifies p.items.head, p.items.vals[*], each(n, *iterable.rlItem[K, pair[PK, V]], n.owner == p.items, n.refCnt, n.key, n.val, n.state, n.next, n.prev, n.owner), p.onDeleteF.dlen, p.onDeleteF.dk, p.onDeleteF.dv
 //@   ensures p.ok() && p.restKept(keyOf(p.mapToInnerKeyF, pk)) && !has(p.items.vals, keyOf(p.mapToInnerKeyF, pk)) && p.createNewF.calls == old(p.createNewF.calls)
-//@   ensures r0 == old(has(p.items.vals, keyOf(p.mapToInnerKeyF, pk)))
+//@   ensures r0 == old(has(p.items.vals, keyOf(p.mapToInnerKeyF, pk))) && len(p.items.vals) == old(len(p.items.vals)) - ite(r0, 1, 0)
 //@   ensures r0 && p.onDeleteF != nil ==> p.logged(old(p.items.aval(keyOf(p.mapToInnerKeyF, pk)).pk), old(p.items.aval(keyOf(p.mapToInnerKeyF, pk)).v))
 //@   ensures !r0 && p.onDeleteF != nil ==> p.logKept()
 
@@ -59,7 +59,7 @@ package lru
 //@   modifies p.items.head, p.items.last, p.items.vals[*], p.inflight[*], each(n, *iterable.rlItem[K, pair[PK, V]], n.owner == p.items || n.owner == nil, n.refCnt, n.key, n.val, n.state, n.next, n.prev, n.owner, n.ord), p.onDeleteF.dlen, p.onDeleteF.dk, p.onDeleteF.dv, p.createNewF.calls
 //@   ensures p.ok()
 // hit: no create call, no delete callback, the entry becomes the most recent one
-//@   ensures old(has(p.items.vals, keyOf(p.mapToInnerKeyF, pk))) ==> r1 == nil && r0 == old(p.items.aval(keyOf(p.mapToInnerKeyF, pk)).v) && p.createNewF.calls == old(p.createNewF.calls) && (p.onDeleteF != nil ==> p.logKept()) && p.restKept(keyOf(p.mapToInnerKeyF, pk)) && p.newest(keyOf(p.mapToInnerKeyF, pk)) && p.items.aval(keyOf(p.mapToInnerKeyF, pk)) == old(p.items.aval(keyOf(p.mapToInnerKeyF, pk)))
+//@   ensures old(has(p.items.vals, keyOf(p.mapToInnerKeyF, pk))) ==> r1 == nil && r0 == old(p.items.aval(keyOf(p.mapToInnerKeyF, pk)).v) && p.createNewF.calls == old(p.createNewF.calls) && (p.onDeleteF != nil ==> p.logKept()) && p.restKept(keyOf(p.mapToInnerKeyF, pk)) && p.newest(keyOf(p.mapToInnerKeyF, pk)) && p.items.aval(keyOf(p.mapToInnerKeyF, pk)) == old(p.items.aval(keyOf(p.mapToInnerKeyF, pk))) && len(p.items.vals) == old(len(p.items.vals))
 // miss: exactly one create call
 //@   ensures !old(has(p.items.vals, keyOf(p.mapToInnerKeyF, pk))) ==> p.createNewF.calls == old(p.createNewF.calls) + 1
 // failed creation changes nothing
@@ -104,3 +104,41 @@ package lru
 //@     invariant forall(j, K, has(p.items.vals, j) ==> old(has(p.items.vals, j)) && keyOf(p.mapToInnerKeyF, p.items.aval(j).pk) == j)
 //@     invariant p.onDeleteF != nil ==> forall(i, old(p.onDeleteF.dlen), p.onDeleteF.dlen, forall(i2, i + 1, p.onDeleteF.dlen, keyOf(p.mapToInnerKeyF, p.onDeleteF.dk[i]) != keyOf(p.mapToInnerKeyF, p.onDeleteF.dk[i2])))
 //@     invariant forall(j, K, old(has(p.items.vals, j)) ==> keyOf(p.mapToInnerKeyF, old(p.items.aval(j)).pk) == j)
+
+//@ func NewECache(maxSize int, toComparableF MapToInnerKeyF[PK, K], createNewF CreatePoolElemF[PK, V], onDeleteF OnDeleteElemF[PK, V]) (*ECache[PK, K, V], error)
+//@   props C08 C11
+//@   ensures maxSize < 1 || createNewF == nil ==> r1 != nil && r0 == nil
+//@   ensures maxSize >= 1 && createNewF != nil ==> r1 == nil && fresh(r0) && r0.maxSize == maxSize && r0.createNewF == createNewF && r0.onDeleteF == onDeleteF && r0.mapToInnerKeyF == toComparableF && len(r0.items.vals) == 0
+//@   ensures maxSize >= 1 && createNewF != nil && toComparableF != nil ==> r0.ok()
+
+//@ func directT(v T) T
+//@   props C08
+//@   ensures r0 == v
+
+//@ func NewCache(maxSize int, createNewF CreatePoolElemF[K, V], onDeleteF OnDeleteElemF[K, V]) (*Cache[K, V], error)
+//@   props C08 C11
+//@   ensures maxSize < 1 || createNewF == nil ==> r1 != nil && r0 == nil
+//@   ensures maxSize >= 1 && createNewF != nil ==> r1 == nil && fresh(r0) && r0.ECache != nil && r0.ECache.ok() && r0.ECache.maxSize == maxSize && r0.ECache.createNewF == createNewF && r0.ECache.onDeleteF == onDeleteF && len(r0.ECache.items.vals) == 0
+
+// ---- ExpirableCache ----
+// the expiry of an item is a pure function of the item
+//@ spec expAt(v CacheItem) time.Time = uninterpreted
+//@ assumed func (v CacheItem) GetExpiresAt() time.Time
+//@   ensures r0 == expAt(v)
+
+//@ func NewExpirableCache(maxSize int, createNewF CreatePoolElemF[K, V], onDeleteF OnDeleteElemF[K, V]) (*ExpirableCache[K, V], error)
+//@   props C08
+//@   ensures maxSize < 1 || createNewF == nil ==> r1 != nil && r0 == nil
+//@   ensures maxSize >= 1 && createNewF != nil ==> r1 == nil && fresh(r0) && r0.Cache != nil && r0.Cache.ECache != nil && r0.Cache.ECache.ok() && len(r0.Cache.ECache.items.vals) == 0
+
+//@ func (p *ExpirableCache[K, V]) GetOrCreate(k K) (V, error)
+//@   props C08
+//@   requires p != nil && p.Cache != nil && p.Cache.ECache != nil && p.Cache.ECache.ok() && p.Cache.ECache.onDeleteF != nil
+//@   modifies clock, p.Cache.ECache.items.head, p.Cache.ECache.items.last, p.Cache.ECache.items.vals[*], p.Cache.ECache.inflight[*], each(n, *iterable.rlItem[K, pair[K, V]], n.owner == p.Cache.ECache.items || n.owner == nil, n.refCnt, n.key, n.val, n.state, n.next, n.prev, n.owner, n.ord), p.Cache.ECache.onDeleteF.dlen, p.Cache.ECache.onDeleteF.dk, p.Cache.ECache.onDeleteF.dv, p.Cache.ECache.createNewF.calls
+//@   ensures p.Cache.ECache.ok()
+// fresh resident item: returned as is, nothing created, nothing deleted
+//@   ensures old(has(p.Cache.ECache.items.vals, keyOf(p.Cache.ECache.mapToInnerKeyF, k))) && !before(expAt(old(p.Cache.ECache.items.aval(keyOf(p.Cache.ECache.mapToInnerKeyF, k)).v)), clock) ==> r1 == nil && r0 == old(p.Cache.ECache.items.aval(keyOf(p.Cache.ECache.mapToInnerKeyF, k)).v) && p.Cache.ECache.createNewF.calls == old(p.Cache.ECache.createNewF.calls) && p.Cache.ECache.logKept()
+// stale resident item: it is passed to the delete callback exactly once and the create function is called once
+//@   ensures old(has(p.Cache.ECache.items.vals, keyOf(p.Cache.ECache.mapToInnerKeyF, k))) && before(expAt(old(p.Cache.ECache.items.aval(keyOf(p.Cache.ECache.mapToInnerKeyF, k)).v)), clock) ==> p.Cache.ECache.createNewF.calls == old(p.Cache.ECache.createNewF.calls) + 1 && p.Cache.ECache.logged(old(p.Cache.ECache.items.aval(keyOf(p.Cache.ECache.mapToInnerKeyF, k)).pk), old(p.Cache.ECache.items.aval(keyOf(p.Cache.ECache.mapToInnerKeyF, k)).v))
+// a miss calls the create function at least once
+//@   ensures !old(has(p.Cache.ECache.items.vals, keyOf(p.Cache.ECache.mapToInnerKeyF, k))) ==> p.Cache.ECache.createNewF.calls >= old(p.Cache.ECache.createNewF.calls) + 1
